@@ -259,6 +259,37 @@ def run_direct(case):
                 fv = loc.replace('%', '%25').replace('\n', '%0A').replace('\r', '%0D')
             parse_path('[Trash Info]\nPath=%s\nDeletionDate=%s\n' % (
                 fv, '2001-02-03T04:05:06'))
+    # ---- the location recorded for entries in odd places of a volume, on a
+    # real directory tree: parents whose path repeats the volume's own
+    # absolute path (mirrors made by rsync -R / cp --parents), parents equal
+    # to the top, names equal to components of the top
+    try:
+        from trashcli.put.original_location import OriginalLocation
+        from trashcli.put.fs.real_fs import RealFs
+        from trashcli.put.core.path_maker_type import PathMakerType
+        import tempfile
+        import shutil
+        base = tempfile.mkdtemp(prefix='vfc03.', dir=world.SCRATCH_PARENT)
+        try:
+            top = os.path.join(base, 'media', 'usb')
+            mirror = os.path.join(top, 'backup') + top          # top repeated inside itself
+            places = [top, os.path.join(top, 'docs'), mirror, os.path.join(mirror, 'docs'),
+                      os.path.join(top, 'usb'), os.path.join(top, 'media', 'usb', 'x')]
+            for d in places:
+                os.makedirs(d, exist_ok=True)
+            ol = OriginalLocation(RealFs())
+            for d in places:
+                for nm in ('report.txt', 'usb', 'a b'):
+                    pth = os.path.join(d, nm)
+                    open(pth, 'w').close() if not os.path.lexists(pth) else None
+                    for pm in (PathMakerType.RelativePaths, PathMakerType.AbsolutePaths):
+                        ol.for_file(pth, pm, top)
+                        out['obs']['locations_in_odd_places'] = \
+                            out['obs'].get('locations_in_odd_places', 0) + 1
+        finally:
+            shutil.rmtree(base, ignore_errors=True)
+    except ImportError:
+        pass
     for k, n in contracts.SINK.counts.items():
         obs['c_' + k] = n
     obs['needs_escape'] = nesc
